@@ -705,12 +705,12 @@ def _value_rejections(prog, cg, f, encoder_side=False):
                 if len(idx) >= 2 and any(i.get('kind') == 'BinaryOperator' and i.get('opcode') in ('-', '+') for i in idx) \
                         and y.get('opcode') in ('<', '<=', '>', '>='):
                     out.append(('order', y, g))
-                elif not ptrish and (literal_value(strip(b, explicit=True)) is not None) != \
-                        (literal_value(strip(a, explicit=True)) is not None) and (
+                elif not ptrish and (_const_int(prog, g, b) is not None) != \
+                        (_const_int(prog, g, a) is not None) and (
                             y.get('opcode') in ('<', '>', '<=', '>=') or (encoder_side and y.get('opcode') in ('==', '!='))):
-                    lit = literal_value(strip(b, explicit=True))
-                    lit = lit if lit is not None else literal_value(strip(a, explicit=True))
-                    other = a if literal_value(strip(b, explicit=True)) is not None else b
+                    lit = _const_int(prog, g, b)
+                    lit = lit if lit is not None else _const_int(prog, g, a)
+                    other = a if _const_int(prog, g, b) is not None else b
                     ot = (strip(other, explicit=True).get('type') or '')
                     oo = strip(other, explicit=True)
                     # a decoded integer held in a local (not the size of a buffer), against a positive
@@ -723,6 +723,52 @@ def _value_rejections(prog, cg, f, encoder_side=False):
                             or (encoder_side and is_size)):
                         out.append(('count', y, g))
     return out
+
+
+def _const_int(prog, g, n):
+    """Integer value of a literal or of a constant (constexpr / const variable with a literal initialiser)."""
+    n = strip(n, explicit=True)
+    v = literal_value(n)
+    if isinstance(v, int) and not isinstance(v, bool):
+        return v
+    if n.get('kind') == 'DeclRefExpr':
+        d = g.tu.ids.get((n.get('referencedDecl') or {}).get('id'))
+        if d is not None and d.get('kind') == 'VarDecl' and ('const' in (d.get('type') or '') or d.get('constexpr')):
+            c = [x for x in children(d) if not x['kind'].endswith('Attr')]
+            if c:
+                return _const_int(prog, g, c[-1])
+    return None
+
+
+def _count_gap(prog, dec, enc):
+    """A positive count the decoder's value tests reject and the encoder's accept, or None.  Each test is
+    `x <op> K` (or `K <op> x`) guarding a throw; evaluated at every K - 1, K, K + 1."""
+    def tests(lst):
+        out = []
+        for _, y, g in lst:
+            a, b = children(y)
+            ka, kb = _const_int(prog, g, a), _const_int(prog, g, b)
+            op = y.get('opcode')
+            if kb is not None and ka is None:
+                out.append((op, kb))
+            elif ka is not None and kb is None:
+                out.append(({'<': '>', '>': '<', '<=': '>=', '>=': '<='}.get(op, op), ka))
+        return out
+
+    def rejects(ts, v):
+        for op, k in ts:
+            if (op == '<' and v < k) or (op == '<=' and v <= k) or (op == '>' and v > k) or \
+                    (op == '>=' and v >= k) or (op == '==' and v == k) or (op == '!=' and v != k):
+                return True
+        return False
+    td, te = tests(dec), tests(enc)
+    if not td or not te:
+        return None
+    pts = sorted({k + d_ for _, k in td + te for d_ in (-1, 0, 1)})
+    for v in pts:
+        if v >= 1 and rejects(td, v) and not rejects(te, v):
+            return v
+    return None
 
 
 def domain_symmetry(prog, chk, rid, grams):
@@ -744,8 +790,16 @@ def domain_symmetry(prog, chk, rid, grams):
             e = [x for x in enc if x[0] == kind]
             inst = '%s: the decoder rejects on %d %s test(s) (first at %s), the encoder applies %d' % (
                 name, len(d), kind, locstr(d[0][1]), len(e))
-            if e:
+            witness = _count_gap(prog, d, e) if kind == 'count' and e else None
+            if e and witness is None:
                 chk.ok(rid, inst, locstr(d[0][1]))
+            elif e:
+                chk.violation(rid, '%s|count %d rejected by the decoder, written by the encoder' % (name, witness),
+                              locstr(d[0][1]),
+                              '%s: the two sides do not draw the same line - a count of %d fails a decoder test (%s) and '
+                              'passes every encoder test (%s): the encoder stores a value its own decoder refuses, and a '
+                              'blob of an independent encoder with that count is refused as well' % (
+                                  inst, witness, ', '.join(locstr(x[1]) for x in d), ', '.join(locstr(x[1]) for x in e)))
             else:
                 chk.violation(rid, '%s|decoder rejects by %s, encoder does not' % (name, kind), locstr(d[0][1]),
                               '%s: a value that fails the decoder\'s %s test (%s in %s) is encoded without any test '
